@@ -357,9 +357,13 @@ func freeze(v interface{}) {
 			freeze(e)
 		}
 	case []interface{}:
-		if len(t) > 0 {
-			lo := uintptr(unsafe.Pointer(&t[0]))
-			frozenSpans = append(frozenSpans, span{lo, lo + uintptr(len(t))*unsafe.Sizeof(t[0])})
+		if cap(t) > 0 {
+			// the whole backing array the receiver's list owns, spare capacity included: an append
+			// into the spare slots is a write into receiver-owned memory (invisible to a deep
+			// comparison, visible to a concurrent reader doing the same)
+			full := t[:cap(t)]
+			lo := uintptr(unsafe.Pointer(&full[0]))
+			frozenSpans = append(frozenSpans, span{lo, lo + uintptr(cap(t))*unsafe.Sizeof(full[0])})
 		}
 		for _, e := range t {
 			freeze(e)
